@@ -38,6 +38,16 @@ Not judged: SDA changes in the very cycle SCL falls (hold time 0 is legal in I2C
 simultaneous strobes with busy low (priority is not part of the statement), a strobe in the last busy cycle
 (the block's FSM is already idle there; the statement only constrains busy = 0), ack_o/data_o while busy, target stretching with
 clk_stretch=False (documented as unsupported), multi-master arbitration, I2CRegisterInterface.
+
+Finding on the unchanged tree (findings/C52.md): a start accepted in the first cycle busy is low after a completed
+start still sees the synchronised sda_i high, takes the idle-bus branch and generates nothing: mechanism
+repeated_start_lost_when_strobed_in_first_idle_cycle_after_start (known finding; narrow: zero gap after a start,
+SDA already driven low at acceptance, SCL never moved).
+
+Deviation from DESIGN section 7: "SCL high phases never start while the target holds SCL low" is a tautology on
+a wired-AND line; it is judged as "no pulse lost, no high phase shorter than a quarter period, data/ack sampled
+correctly although the target changes SDA until one cycle before it releases SCL".  A free-running quarter timer
+during a stretch (high phase after the stretch between one and two quarter periods) is accepted.
 """
 from rv.sim import Bench
 
@@ -66,11 +76,11 @@ def run_case(rng, tier, res):
     from amaranth.hdl.rec import Record, DIR_FANIN, DIR_FANOUT
     from luna.gateware.interface.i2c import I2CBus, I2CInitiator
 
-    period = rng.choice([8, 8, 9, 10, 12, 13, 16, 16, 20, 24, 30, 32, 37, 40, rng.randint(8, 40)])
+    period = rng.choice([8, 8, 8, 9, 10, 12, 13, 16, 16, 20, 24, 30, 32, 37, 40, rng.randint(8, 40)])
     q = period // 4
     r = rng.random()
-    pushpull = r < 0.12
-    clk_stretch = (r >= 0.27) if not pushpull else (rng.random() < 0.5)
+    pushpull = r < 0.16
+    clk_stretch = (r >= 0.31) if not pushpull else (rng.random() < 0.5)
     can_stretch = clk_stretch and not pushpull
     res.bin("period_8" if period == 8 else "period_ge_32" if period >= 32 else "period_mid")
     if not clk_stretch:
@@ -173,7 +183,10 @@ def run_case(rng, tier, res):
                 ops.append(mk("stop"))
         elif x < 0.6:
             ops.append(mk("start"))
-            ops.append(mk(rng.choice(["start", "stop", "read", "write"])))
+            ops.append(mk(rng.choice(["start", "stop", "stop", "read", "write"]), comb=rng.random() < 0.6))
+        elif x < 0.66:
+            ops.append(mk("read", ack=True))
+            ops.append(mk("stop"))
         else:
             ops.append(mk(rng.choice(["start", "stop", "stop", "write", "read", "read"])))
     res.desc = {"period_cyc": period, "clk_stretch": clk_stretch, "pushpull_scl": pushpull,
